@@ -441,6 +441,224 @@ def gen_inf(rng, tier):
                                             rng.choice(MODES)], nontrivial=w is not None or p is not None)
 
 
+
+# ---------------------------------------------------------------- round 5: scientific text read back, extremes, alphabets
+
+IMAX = 2 ** 63 - 1
+IMIN = -2 ** 63
+UMAX = 2 ** 64 - 1
+# E1: extreme machine integers (usize arguments: precision of with_precision / with_base_and_precision / Context)
+EXT_U = [0, 1, 63, 64, 65, 128, 2 ** 31, 2 ** 32 - 1, 2 ** 32, 2 ** 32 + 1, 2 ** 32 + 7, 2 ** 32 + 64, 2 ** 32 + 129, 2 ** 63 - 1, 2 ** 63,
+         2 ** 63 + 1] + [UMAX - k for k in (0, 1, 2, 62, 63, 64, 65, 127, 128, 130)]
+# E1: extreme exponents (isize argument of from_parts / Repr::new, scale of a literal)
+EXT_I = sorted(set([0, 1, -1, 63, -63, 64, -64, 65, -65, 128, -128, 2 ** 31, -2 ** 31, 2 ** 32 - 1, -(2 ** 32 - 1), 2 ** 32, -2 ** 32,
+                    2 ** 32 + 5, -(2 ** 32 + 5), 2 ** 32 + 129, 2 ** 62, -2 ** 62]
+                   + [IMAX - k for k in (0, 1, 2, 3, 4, 5, 8, 12, 16, 17, 31, 32, 33, 63, 64, 65, 129, 130)]
+                   + [IMIN + k for k in (0, 1, 2, 3, 4, 5, 8, 16, 32, 64, 130)]))
+SCI_KINDS = [("lexp", b) for b in BASES] + [("uexp", b) for b in BASES] + [("bin", 2), ("oct", 8), ("lhex", 16), ("uhex", 16), ("lhex", 2), ("uhex", 2)]
+
+
+def sci_shown_digits(kind, b, s):
+    nd = max(1, ndigits(s, b))
+    return (nd + 3) // 4 if (b == 2 and kind in ("lhex", "uhex")) else nd
+
+
+def gen_rtsci(rng, tier):
+    """scientific text printed and read back (op f.rtsci): every scientific trait of every base, with and without a
+    precision (around the number of shown digits: 0, 1, d-2, d-1, d, d+2), with and without `+`, all six modes; random,
+    all-nines (the rounding carries into a new digit) and half-way significands; exponents of every magnitude incl. the
+    E1 list (the text is short whatever the exponent)."""
+    quick = tier == "quick"
+    for (kind, b) in SCI_KINDS:
+        for _ in range(12 if quick else 700):
+            mode = rng.choice(MODES)
+            pat = rng.randrange(4)
+            if pat == 0:
+                k = rng.choice([1, 2, 3, 4, 5, 8, 9, 13, 40])
+                s, e = norm((b ** k - 1) * rng.choice([1, -1]), rng.choice([0, -1, -k, 3, 77, -300]), b)
+            elif pat == 1:
+                s, e, _ = halfway_float(rng, b, rng.choice([0, 1, 2, 5]))
+            else:
+                s, e, _ = rand_float(rng, b, tier)
+            if rng.random() < 0.15:
+                e = rng.choice(EXT_I)
+                if e > IMAX - 8 * max(1, len(hx(s))):          # keep the printed exponent inside isize here (see gen_extreme)
+                    e = IMAX - 8 * max(1, len(hx(s))) - rng.randrange(0, 100)
+            d = sci_shown_digits(kind, b, s)
+            p = rng.choice([None, None, 0, 1, max(0, d - 2), max(0, d - 1), d, d + 2])
+            yield Case("f.rtsci", [kind, "none" if p is None else dec(p), rng.choice("+-"), farg(b, s, e, max(1, ndigits(s, b)), mode)],
+                       nontrivial=True)
+        # zero
+        yield Case("f.rtsci", [kind, rng.choice(["none", dec(0), dec(3)]), rng.choice("+-"), farg(b, 0, 0, 0, rng.choice(MODES))], nontrivial=False)
+
+
+def ilog_pair(b, nb):
+    """n with b = nb^n (0 if b is not a proper power of nb)"""
+    k, p = 0, 1
+    while p < b:
+        p *= nb
+        k += 1
+    return k if p == b and k > 1 else 0
+
+
+def gen_extreme(rng, tier):
+    """E1 (ROUND4 addendum E): extreme machine integers in every usize / isize parameter that can be driven cheaply.
+    * exponent (isize) of the printed float: scientific formats at 0, +-1, +-63..65, +-2^31, +-2^32(+-k), +-2^62,
+      isize::MAX-k, isize::MIN+k (k up to 130) incl. the region where the printed exponent exp + digits - 1 leaves the isize range;
+    * scale of a literal (isize): the same list as decimal text, with 0..3 fraction digits (the exponent becomes scale - fd,
+      below isize::MIN for scale near MIN) and trailing zero digits (normalisation ADDS to the exponent, above MAX near MAX),
+      plain and hexadecimal form, plus the first values outside the isize range;
+    * precision (usize) of with_precision, with_base_and_precision (power-related bases, where the cost does not grow with p)
+      and of the source Context: 0, 1, 63..65, 2^31, 2^32-1, 2^32+k, 2^63, usize::MAX-k;
+    * width / precision of the formatter (u16 since Rust 1.87): 255, 256, 1000, 65535."""
+    quick = tier == "quick"
+    exps = EXT_I if not quick else [e for e in EXT_I if abs(e) < 2 ** 33 or rng.random() < 0.45]
+    # scientific formats at extreme exponents
+    for e in exps:
+        for (kind, b) in (rng.sample(SCI_KINDS, 3) if quick else SCI_KINDS):
+            nd = rng.choice([1, 2, 3, 9])
+            s = rng.randrange(b ** (nd - 1), b ** nd) * rng.choice([1, -1])
+            if s % b == 0:
+                s += 1
+            d = sci_shown_digits(kind, b, s)
+            p = rng.choice([None, None, 0, max(0, d - 2), d + 1])
+            yield Case("f.rtsci", [kind, "none" if p is None else dec(p), "-", farg(b, s, e, nd, rng.choice(MODES))], nontrivial=True)
+    # literals with extreme scales
+    for b in BASES:
+        mk = "@" if b not in (10,) else rng.choice("eE@")
+        scales = exps + [IMAX + 1, IMAX + 2, IMIN - 1, IMIN - 2, 2 ** 64, -2 ** 64, 10 ** 30]
+        for z in (scales if not quick else rng.sample(scales, min(len(scales), 22))):
+            for (ip, fp) in [("1", ""), ("1", "1"), ("1", "01"), ("1", "001"), (ALNUM[b - 1] + "0", ""), (ALNUM[b - 1] + "00", ""), ("1", "0"),
+                             ("0", ""), ("0", "00"), ("1" + "0" * 7, "1")]:
+                if quick and rng.random() < 0.5:
+                    continue
+                lit = rng.choice(["", "-", "+"]) + ip + ("." + fp if fp or rng.random() < 0.2 else "") + mk + str(z)
+                yield Case("f.parse", [dec(b), rng.choice(MODES), sb(lit)], nontrivial=True)
+        if b == 2:
+            for z in (scales if not quick else rng.sample(scales, 12)):
+                for body in ("0x1", "0x1.8", "0x1.08", "0xf0", "0x10.001", "0x.8"):
+                    yield Case("f.parse", [dec(2), rng.choice(MODES), sb(body + rng.choice("pP") + str(z))], nontrivial=True)
+    # precisions
+    for b in (2, 10, 16, 36):
+        for p in (EXT_U if not quick else rng.sample(EXT_U, 9)):
+            s, e, prec = rand_float(rng, b, tier)
+            mode = rng.choice(MODES)
+            sp = rng.choice([0, prec, rng.choice(EXT_U)])
+            if sp and sp < ndigits(s, b):
+                sp = ndigits(s, b)
+            yield Case("f.with_precision", [farg(b, s, e, sp, mode), dec(p)], nontrivial=True)
+            ee = rng.choice(EXT_I)
+            yield Case("f.with_precision", [farg(b, s, ee if abs(ee) < 2 ** 62 + 1 else e, sp, mode), dec(rng.choice([1, 2, max(1, ndigits(s, b) - 1), p]))],
+                       nontrivial=True)
+        for (bb, nb) in [(x, y) for (x, y) in PAIRS if x == b and is_pow_related(x, y)]:
+            for p in (EXT_U if not quick else rng.sample(EXT_U, 6)):
+                s, e, prec = rand_float(rng, b, tier)
+                if abs(e) > 400:
+                    e = 7
+                if p == 0:
+                    continue
+                yield Case("f.with_base_prec", [dec(nb), dec(p), farg(b, s, e, prec or 1, rng.choice(MODES))], nontrivial=True)
+            # exponents of large magnitude: a pure exponent rescaling (|e| * log(B)/log(NewB) stays inside isize)
+            for e in [x for x in EXT_I if abs(x) <= 2 ** 60 or abs(x) == 2 ** 62 and nb > b]:
+                if quick and rng.random() < 0.7:
+                    continue
+                s, _, prec = rand_float(rng, b, tier)
+                if s == 0:
+                    s = 1
+                yield Case("f.with_base_prec", [dec(nb), dec(rng.choice([1, 3, 8, 64])), farg(b, s, e, prec or 1, rng.choice(MODES))], nontrivial=True)
+    # source precision (usize) of with_base between power-related bases: `precision * n` resp. `precision / n`
+    for (b, nb) in [(x, y) for (x, y) in PAIRS if is_pow_related(x, y)]:
+        k = max(ilog_pair(b, nb), 1)
+        ps = EXT_U + [UMAX // k - 1, UMAX // k, UMAX // k + 1, UMAX // k + 2] if k > 1 else EXT_U
+        for sp in (ps if not quick else rng.sample(ps, 8)):
+            s, e, _ = rand_float(rng, b, tier)
+            if abs(e) > 400:
+                e = 5
+            if sp and sp < ndigits(s, b):
+                sp = ndigits(s, b)
+            yield Case("f.with_base", [dec(nb), farg(b, s, e, sp, rng.choice(MODES))], nontrivial=True)
+    # formatter width / precision at the largest values core::fmt accepts
+    for b in (2, 10, 36):
+        for big in ([65535] if quick else [255, 256, 1000, 65534, 65535]):
+            s, e, prec = rand_float(rng, b, tier)
+            if abs(e) > 400:
+                e = -3
+            mode = rng.choice(MODES)
+            yield Case("f.fmt", ["disp", dec(big), "none", "-", farg(b, s, e, prec, mode)], nontrivial=True)
+            yield Case("f.fmt", ["disp", "none", dec(big), rng.choice(FFLAGS), farg(b, s, e, prec, mode)], nontrivial=True)
+            yield Case("f.fmt", [rng.choice(["lexp", "uexp"]), dec(big), dec(big), rng.choice(FFLAGS), farg(b, s, e, prec, mode)], nontrivial=True)
+            yield Case("f.fmt", ["disp", dec(0), dec(big), rng.choice(FFLAGS), farg(b, s, e, prec, mode)], nontrivial=True)
+
+
+def gen_alphabet(rng, tier):
+    """E2: every byte 0x00..0x7f (and a few multi-byte characters) in every syntactic position of a literal — before and
+    after the sign, inside / at the end of the integer digits, right after the point, inside the fraction digits, in the
+    marker position, in the sign position of the scale, inside and after the scale digits, and after the `0x` prefix — for
+    every base 2, 3, 8, 10, 16, 36 (the digit alphabet, the markers and `_` depend on the base and on the prefix)."""
+    quick = tier == "quick"
+    extra = ["é", "٣", "１", "\U0001f600", " ", "−", "İ"]
+    for b in BASES:
+        d = lambda n: rand_digits(rng, b, n)
+        mk = rng.choice(MARKERS[b])
+        shapes = [
+            lambda c: c + d(2) + "." + d(2) + mk + "5",                      # before everything
+            lambda c: "-" + c + d(2) + "." + d(2) + mk + "5",                # after the sign
+            lambda c: d(1) + c + d(1) + "." + d(2) + mk + "5",               # inside the integer digits
+            lambda c: d(2) + c + "." + d(2) + mk + "5",                      # before the point
+            lambda c: d(2) + "." + c + d(2) + mk + "5",                      # after the point
+            lambda c: d(2) + "." + d(1) + c + d(1) + mk + "5",               # inside the fraction digits
+            lambda c: d(2) + "." + d(2) + c + "5",                           # marker position
+            lambda c: d(2) + "." + d(2) + c,                                 # marker position, nothing behind
+            lambda c: d(2) + "." + d(2) + mk + c + "5",                      # sign of the scale
+            lambda c: d(2) + "." + d(2) + mk + "1" + c + "2",                # inside the scale digits
+            lambda c: d(2) + "." + d(2) + mk + "-12" + c,                    # after the scale
+            lambda c: d(3) + c,                                              # end of an integer literal
+            lambda c: c,                                                     # the whole literal
+        ]
+        if b == 2:
+            hd = lambda n: rand_digits(rng, 2, n, True)
+            shapes += [
+                lambda c: "0x" + c + hd(2) + ".8p3",                         # after the prefix
+                lambda c: "0" + c + hd(2) + ".8p3",                          # the `x` of the prefix
+                lambda c: "0x" + hd(1) + c + hd(1) + "p3",                   # inside hexadecimal digits
+                lambda c: "0x" + hd(2) + "." + hd(1) + c + "p-3",            # inside hexadecimal fraction digits
+                lambda c: "0x" + hd(2) + "." + hd(2) + c + "3",              # marker position behind hexadecimal digits
+                lambda c: "0x" + hd(2) + "." + hd(2) + "p" + c + "3",        # sign of the binary scale
+            ]
+        for sh in shapes:
+            chars = [chr(i) for i in range(128)] + extra
+            if quick:
+                chars = rng.sample(chars, 34)
+            for c in chars:
+                yield Case("f.parse", [dec(b), rng.choice(MODES), sb(sh(c))], nontrivial=True)
+
+
+SAME_PAIRS = [2, 3, 10, 16]          # same-base instantiations of the harness
+
+
+def gen_same_base(rng, tier):
+    """with_base::<B>() / with_base_and_precision::<B>(p) with the SAME base (the `NewB == B` shortcut at the head of
+    convert_base): target precision below, at and above the digit count d of the operand (p in {1, d-2, d-1, d, d+1, 2d}),
+    half-way and all-nines tails, all six modes, exponents of any size (nothing is evaluated)."""
+    quick = tier == "quick"
+    for b in SAME_PAIRS:
+        for _ in range(40 if quick else 1500):
+            mode = rng.choice(MODES)
+            pat = rng.randrange(3)
+            if pat == 0:
+                s, e, prec = halfway_float(rng, b, rng.choice([0, 1, 2, 5]))
+            elif pat == 1:
+                k = rng.choice([2, 3, 5, 9, 20])
+                s, e = norm((b ** k - 1) * rng.choice([1, -1]), rng.choice([0, -1, -k, 3, 77]), b)
+                prec = k
+            else:
+                s, e, prec = rand_float(rng, b, tier)
+            d = max(1, ndigits(s, b))
+            p = rng.choice([1, max(1, d - 2), max(1, d - 1), d, d + 1, 2 * d])
+            yield Case("f.with_base_prec", [dec(b), dec(p), farg(b, s, e, max(prec, 1), mode)], nontrivial=p < d)
+            if rng.random() < 0.3:
+                yield Case("f.with_base", [dec(b), farg(b, s, e, max(prec, d), mode)], nontrivial=False)
+
 def generate(rng, tier):
     yield from gen_parse(rng, tier)
     yield from gen_fmt(rng, tier)
@@ -449,6 +667,10 @@ def generate(rng, tier):
     yield from gen_prec(rng, tier)
     yield from gen_ieee(rng, tier)
     yield from gen_inf(rng, tier)
+    yield from gen_rtsci(rng, tier)
+    yield from gen_extreme(rng, tier)
+    yield from gen_alphabet(rng, tier)
+    yield from gen_same_base(rng, tier)
 
 
 def _parse_farg(a):
@@ -555,7 +777,13 @@ RULE = ("parse: the documented grammar as a generator for bases {2,3,8,10,16,36}
         "targets {0, 1, d-2, d-1, d, d+1}, source precision {unlimited, d, d+3}, all six modes, bases 2/3/10/16/36, both signs, plus random ones. "
         "IEEE: special bit patterns and random f32/f64. Infinities (+/-) through every formatting trait of every base "
         "(Display, LowerExp, UpperExp, Debug and pretty Debug of FBig and Repr, Binary/Octal/LowerHex/UpperHex where defined) with and "
-        "without precision, width, fill, alignment, `+`, zero flag. Non-trivial := literal longer than 12 bytes / a precision or "
+        "without precision, width, fill, alignment, `+`, zero flag. Round 5: scientific text printed and read back (op f.rtsci: every scientific trait of every base, "
+        "precision none/0/1/d-2/d-1/d/d+2 in shown digits, `+`, all modes, random / all-nines / half-way significands, exponents up to +-5000 and the E1 list); "
+        "E1 extremes: exponents 0, +-1, +-63..65, +-128, +-2^31, +-(2^32-1), +-2^32(+k), +-2^62, isize::MAX-k, isize::MIN+k (k <= 130) as exponent of the printed "
+        "float (scientific traits) and as scale of literals (0..3 fraction digits, trailing zero digits, plain and 0x form, first values outside isize); usize "
+        "precisions 0, 1, 63..65, 128, 2^31, 2^32-1, 2^32+k, 2^63(+-1), usize::MAX-k for with_precision, the source Context and with_base_and_precision "
+        "(power-related bases); formatter width / precision 255..65535 (the largest core::fmt accepts). E2: every byte 0x00..0x7f plus 7 multi-byte "
+        "characters in 13 syntactic positions of a literal (19 for base 2: 0x prefix positions) for each of the six bases (quick: 34 sampled bytes per position). Non-trivial := literal longer than 12 bytes / a precision or "
         "width option / non-zero exponent; distinct := distinct case lines.")
 REFINED = [
     "Context::convert_base, branch NewB = B^n (div_rem_euclid of the exponent, multiply, repr_round): exact value handed to repr_round "
@@ -598,6 +826,31 @@ REFINED = [
     "the carry branch (9.99 -> 10.0: divide by B, exponent + 1) keeps the value and at most P digits are printed "
     "(scientific_rounding); the text is d0 [. d1..dn] marker E with exactly p fraction digits under a precision p, digits below "
     "the shown radix, and (d0..dn)_radix * B^(E - n*k) = |rounded value| with the sign of the number (scientific_text_denotes)",
+    "scientific text read back (round 5): what LowerExp / UpperExp / Binary / Octal / LowerHex / UpperHex print (with or without `+` and precision, no width) is "
+    "accepted by from_str_native of the same base — the marker each trait prints is a scale marker of its base (scientific_markers_accepted) — and the float "
+    "read is exactly the value shown: the number itself without a precision (round trip), its rounding to p+1 significant digits with one; precision "
+    "read = digits shown (scientific_print_parse, lower_upper_exp_parse_back, radix_trait_parse_back; hypothesis: the printed exponent is an isize); "
+    "executed against the real code by op f.rtsci, whose specification side is specRound (builder-float's executable rounding over Rat)",
+    "Display text = specification text (round 5): fmt_round without a width (any precision option, `+`) prints exactly displaySpec — the exact positional "
+    "expansion without a precision, the fixed-point text of roundInt m (x*B^k) with precision k — for every repr whose zero has exponent 0 "
+    "(display_text_is_spec); the run-time comparison of the two texts in the driver is now a theorem",
+    "displaySpec <-> ModeSpec (round 5): roundInt m (N/D) — the executable definition of the modes used by displaySpec and specRound — satisfies "
+    "ModeSpec m N D for all integers N, D > 0 (round_int_meets_mode_spec), ModeSpec names exactly one integer (mode_spec_unique), hence the integer "
+    "displaySpec prints is precRounded, the integer fmt_round prints (display_spec_rounds_like_model)",
+    "Tie A (round 5): the scale-marker table and the 0x/0X prefix test of Repr::from_str_native and the marker / upper / hex table of the formatting "
+    "traits (impl_fmt_with_base! rows, LowerExp/UpperExp marker, unwrap_or('@')) are regenerated from float/src/parse.rs and float/src/fmt.rs "
+    "(Dashu.Gen.FloatText) and proved equal to the model's isScaleMarker / hasHexPrefix / fmtSci / fmtRadixTrait (scale_markers_regenerated, "
+    "fmt_trait_table_regenerated): a change of a marker, base or flag in the source breaks the build of Props/C08",
+    "with_precision never returns more than p digits when the precision shrinks (with_precision_digits)",
+    "with_base between power-related bases at source precisions around usize::MAX / n: the model saturates `precision * n` at usize::MAX (required); the "
+    "code overflows (recorded finding + patch)",
+    "with_base::<NewB>() (and its call forms to_decimal / to_binary) = with_base_and_precision at the derived precision: contract, <= q+1 digits, and "
+    "q the documented maximum for bases that are not powers of one another, in one statement (with_base_contract); zero-padded scientific text (zero "
+    "flag, right/default alignment, any width, `+`) parses back to the value shown (padded_scientific_print_parse)",
+    "Context::convert_base, same base (round 5): the model states what the property REQUIRES — repr_round to the target precision like every other "
+    "branch (convert_base_same_base) — so convert_base_result_digits (<= p+1 digits) and the contract now hold WITHOUT excluding NewB = B; the code "
+    "returns the operand unrounded (with_base_and_precision::<B>(p), p below the digit count): recorded finding + patch; driven by gen_same_base "
+    "(bases 2, 3, 10, 16)",
     "infinities: the shortcut of every formatter prints inf / -inf and ignores every formatter option (fmtInfinite; driven against the real "
     "code through all traits, FBig and Repr, op f.fmtinf)",
     "Binary / Octal / LowerHex / UpperHex of FBig (base 2: `b` and the hexadecimal form 0xh.hhp±e; base 8: `o`; base 16: `h`) and Debug of "
@@ -606,16 +859,25 @@ REFINED = [
 ]
 FRONTIER = [
     "str::parse::<isize>() of the scale (parseIsize) is shared by model and grammar: its own behaviour (sign, ASCII digits, 64-bit range) "
-    "is compared with the real code at run time only; the theorems hold for 64-bit isize",
-    "the executable displaySpec (roundInt of the rational value, compared with the model text at run time on every Display case without "
-    "width) is not linked by theorem to ModeSpec; the theorems about Display/scientific rounding are stated with ModeSpec directly. "
-    "Parsing the scientific text back (marker e/E/b/o/h/p instead of @) is not proved (only Display text is)",
+    "is compared with the real code at run time only (E1/E2 classes of round 5: every byte in the scale positions, values at and beyond the isize "
+    "limits); the theorems hold for 64-bit isize",
+    "exponent arithmetic: the model's exponent is an unbounded integer, the code's an isize. The theorems are about the unbounded model; the driver "
+    "requires an error for a literal whose exact value needs an exponent outside isize and the exact text for a shown exponent outside isize. The real "
+    "code overflows there (debug panic / release wrap): 2 recorded findings (parse.rs:142 + Repr::normalize; fmt.rs:332/334). Display with |exponent| "
+    "beyond ~5000 is not driven (the text has |exponent| characters); with_base at |exponent| > 2^60 is not driven",
+    "Scientific text padded with FILL characters (a width without the zero flag, or the zero flag with left / centre alignment) does not parse "
+    "back in general and is not claimed; Display text padded with fill characters likewise",
     "Context::convert_base large-exponent branch (ln/exp at doubled precision): not mirrored; every case judged by exact rational arithmetic "
-    "in the harness (digits, < 1 ulp, side, truthful flag, exact when representable) — the branch does NOT meet the contract (2 findings)",
-    "Repr::new normalisation, repr_round, split_digits, round_fract, round_ratio: builder-float's models and theorems (C03/C10) are reused",
-    "log2_bounds (f32 estimate used by with_base for non power-related bases): builder-nt's bit-exact Float32 replica (C12), no theorem",
+    "in the harness (digits, < 1 ulp, side, truthful flag, exact when representable) — the branch does NOT meet the contract (2 findings); no "
+    "executable model can carry it short of C11's mirrored exp/ln at the working precision convert_base chooses (not attempted)",
+    "Repr::new normalisation, repr_round, split_digits, round_fract, round_ratio: builder-float's models and theorems (C03/C10) are reused by import",
+    "log2_bounds (f32 estimate): no longer on any path of C08 since fix fa3b7b8 (with_base uses the exact integer logarithm); nothing left to prove here",
     "Debug of finite values (DoubleEnd integer form, pretty struct form) is mirrored and compared on every run; there is no theorem about it "
-    "(the property makes no claim about Debug text)",
+    "(the property makes no claim about Debug text; C07 owns the DoubleEnd digits theorem)",
+    "clause review (round 5): every clause of the property text has a theorem except (a) base conversion through ln/exp (above), (b) `to_decimal` / "
+    "`to_binary` — call forms of with_base::<10> / <2> (with_base_contract), compared with with_base by the harness on every run, (c) huge source precisions in with_base between bases that are not "
+    "powers of one another are not driven (B^p is evaluated: AllocTooMuch), (d) printing/parsing at exponents outside the "
+    "isize-safe range (above)",
 ]
 THEOREMS = ["Dashu.Props.C08." + t for t in [
     "convert_base_pow_up_branch", "convert_base_pow_up_contract", "ilog_exact_sound", "convert_base_pow_down_branch",
@@ -624,7 +886,11 @@ THEOREMS = ["Dashu.Props.C08." + t for t in [
     "print_precision_text", "print_precision_rounding", "print_precision_parse", "with_precision_contract", "with_precision_unlimited",
     "display_padding_keeps_digits", "scientific_padding_keeps_digits", "padded_print_parse_round_trip", "padded_print_precision_parse",
     "convert_base_long_dividend_contract", "convert_base_exact_paths_contract", "convert_base_result_digits", "with_base_precision_model",
-    "display_width_exact", "scientific_width_exact", "scientific_rounding", "scientific_text_denotes"]]
+    "display_width_exact", "scientific_width_exact", "scientific_rounding", "scientific_text_denotes",
+    "scientific_print_parse", "scientific_markers_accepted", "lower_upper_exp_parse_back", "radix_trait_parse_back",
+    "round_int_meets_mode_spec", "mode_spec_unique", "display_spec_rounds_like_model", "with_precision_digits",
+    "scale_markers_regenerated", "fmt_trait_table_regenerated", "convert_base_same_base",
+    "padded_scientific_print_parse", "with_base_contract", "display_text_is_spec"]]
 EXPLANATION = ("Partial. Proved for all bases, modes, precisions and operands: the three exact-evaluation branches of base conversion "
                "round the exact value (contract of C03: exact iff representable, else < 1 ulp on the mode's side, truthful flag); "
                "the documented with_base precision; exactness of the f32/f64 import; the literal parser equals the documented grammar on every byte "
@@ -634,10 +900,15 @@ EXPLANATION = ("Partial. Proved for all bases, modes, precisions and operands: t
                "convert_base that avoids ln/exp (incl. the division branch) rounds the exact value under the contract; padding (width, fill, "
                "alignment, +, zero flag) never changes the digits, the width is honoured exactly (Display and scientific formats) and "
                "zero-padded Display text parses back to the same value; the scientific formats (LowerExp/UpperExp/Binary/Octal/Hex incl. "
-               "the hexadecimal form) round to p+1 significant digits as the mode says and their text denotes that rounded value. "
+               "the hexadecimal form) round to p+1 significant digits as the mode says and their text denotes that rounded value and parses back "
+               "(same base) to exactly it — to the printed number itself without a precision; the executable rounding specification (roundInt) "
+               "used on the specification side meets the relational one (ModeSpec), which is single-valued; the Display text equals the text of the "
+               "executable specification displaySpec; the marker tables of parser and "
+               "formatter are regenerated from the source. "
                "Debug and the printing of infinities are mirrored models compared on every run with the "
                "real code; the ln/exp conversion branch is judged per case by exact arithmetic.")
-ASSUMPTIONS = ["the f32 coarse test of round_fract decides like the exact comparison (C10)",
+ASSUMPTIONS = ["exponents are unbounded integers in the model (isize in the code): results are claimed where no exponent leaves the isize range",
+               "the f32 coarse test of round_fract decides like the exact comparison (C10)",
                "core::fmt delivers precision/width/flags as documented",
                "dashu-ratio arithmetic used by the harness judge of the ln/exp branch is exact (C04)"]
 LEVEL_TEXT = ("PARTIAL. Machine-checked Lean 4 theorems, for every base >= 2, mode, precision >= 1 and operand: base conversion through the "
@@ -652,11 +923,22 @@ LEVEL_TEXT = ("PARTIAL. Machine-checked Lean 4 theorems, for every base >= 2, mo
               "too; formatter padding never alters the digits, pads to exactly the requested width (Display and all scientific formats), and "
               "zero-padded text parses back to the same value; LowerExp/UpperExp/Binary/Octal/LowerHex/UpperHex (incl. the hexadecimal form "
               "of base 2) round the significand to p+1 digits as the mode specifies — a carry into a new digit keeps the value — and the "
-              "printed digits, point and exponent denote exactly that rounded value, with exactly p fraction digits. "
+              "printed digits, point and exponent denote exactly that rounded value, with exactly p fraction digits; that text (no width) is "
+              "accepted by the parser of the same base and reads back as exactly the value shown — the printed number itself when no precision "
+              "is given — provided the printed exponent fits an isize; roundInt (the executable definition of the six modes used by the "
+              "specification side) satisfies ModeSpec, ModeSpec is single-valued, so displaySpec rounds to the integer the model prints, and the whole Display text (no width) "
+              "equals the displaySpec text; the "
+              "scale-marker table of the parser and the marker table of the formatting traits are regenerated from the source and proved equal to "
+              "the model's (Tie A). "
               "Not proved but executed against the real code on every run: Debug, the printing of infinities (all traits). The large-exponent branch (ln/exp) is checked per case with exact "
-              "rational arithmetic; it violates the contract on representable inputs and at small precisions (recorded findings).")
+              "rational arithmetic; it violates the contract on representable inputs and at small precisions (recorded findings). Exponent arithmetic at the isize "
+              "limits overflows in the parser and in the scientific formatter (2 recorded findings, patches proposed); the theorems are about "
+              "unbounded exponents. with_base_and_precision with the SAME base does not round to a smaller precision (recorded finding, patch "
+              "proposed); the model and the theorems state the required behaviour.")
 LEVEL_NOTE = ("Trusted: Lean kernel; axioms propext/Classical.choice/Quot.sound; the correspondence harness, its exact-arithmetic judge "
               "(dashu-ratio) and the generators (sampling); builder-float's rounding model/theorems (C03, C10) and builder-nt's log2 "
               "replica (C12) are reused. Eight defects found by this check; six were repaired in /repo (`fixed:` lines of known_findings.jsonl, patches in "
-              "/verif/proposed_fixes/c08-*.diff) and the model describes the repaired code; the two findings about the ln/exp branch remain recorded.")
+              "/verif/proposed_fixes/c08-*.diff) and the model describes the repaired code; the two findings about the ln/exp branch, the two about exponent overflow at the isize limits and the same-base "
+              "shortcut of convert_base that does not round (round 5: proposed_fixes/c08-fmt-scientific-exponent-overflow.diff, "
+              "c08-parse-exponent-overflow.diff, c08-convert-base-same-base.diff, c08-with-base-precision-overflow.diff) remain recorded.")
 TECHNIQUE = "Lean 4 model + theorems, differential correspondence model vs real code, exact-arithmetic judge for the ln/exp branch"
